@@ -35,6 +35,68 @@ UPD_BAD = {"labels": [{"bogus": 1}, {"vlan": 5}, {"local_name": "ok", "mac": "zz
            "capacities": [{"core": "many"}, {"bogus": 2}, {"bw": 1, "core": -1}]}
 
 
+# values a property setter WITHOUT a type check lets through although every codec of the repo writes strings: the layers
+# below the sliver (graph primitives, serializers) meet them first.  All JSON-able (cases are replayed from JSON) + a tuple.
+LOOSE_VALUES = [["int", 1234], ["raw", 2.5], ["raw", [1, 2]], ["raw", {"a": 1}], ["int", 0], ["raw", []], ["raw", False],
+                ["raw", True], ["tuple", [1, 2]], ["raw", {}]]
+_LOOSE = {}
+
+
+def loose_props(kind):
+    """keyword properties of the element kind whose sliver setter accepts a non-string value and hands it to the graph as it is
+    (found by probing the sliver class with LOOSE_VALUES, not listed): [(name, [value specs accepted])]"""
+    if kind not in _LOOSE:
+        cls, to_dict = T._sliver_codec(kind)
+        base = to_dict(cls())
+        out = []
+        for nm in sorted(cls.list_properties()):
+            acc = []
+            for spec in LOOSE_VALUES:
+                sl = cls()
+                try:
+                    sl.set_properties(**{nm: mk_value(spec)})
+                    d = to_dict(sl)
+                except Exception:
+                    continue
+                ch = [k for k in d if k not in base or base[k] != d[k]]
+                if ch and all(k not in T.CLASS_KEYS for k in ch) and any(not isinstance(d[k], str) for k in ch):
+                    acc.append(spec)
+            if acc:
+                out.append((nm, acc))
+        _LOOSE[kind] = out
+    return _LOOSE[kind]
+
+
+_KW_KIND = {"add_node": "node", "add_component": "comp", "add_component_mt": "comp", "add_storage": "comp", "add_service": "svc",
+            "node_add_service": "svc", "add_port_mirror": "svc", "add_link": "link", "ns_add_interface": "iface",
+            "add_child_interface": "iface", "peer": "iface"}
+
+
+def loosen(rng, sess, op, p=0.1):
+    """post-processor of a generated op (as lib_topo.collide): with probability p one keyword whose setter has no type check
+    gets a non-string value, at a random position among the call's keywords - in creating calls and bulk setters alike"""
+    k = op.get("op")
+    if "kw" not in op or rng.random() >= p:
+        return op
+    if k == "set_props":
+        h = sess.handles.get(op.get("h"))
+        kind = h.kind if h is not None else None
+    else:
+        kind = _KW_KIND.get(k)
+    have = [x[0] for x in op["kw"]]
+    # creating calls pass site= (and the port mirror its mirror_* values) as arguments of their own
+    skip = () if k == "set_props" else ("site", "mirror_port", "mirror_vlan")
+    cands = [(n, vs) for n, vs in (loose_props(kind) if kind else []) if n not in have and n not in skip]
+    if not cands:
+        return op
+    n, vs = rng.choice(cands)
+    op = dict(op, kw=list(op["kw"]), loose=n)
+    op["kw"].insert(rng.randrange(len(op["kw"]) + 1), [n, rng.choice(vs)])
+    if k == "set_props":
+        op["single"] = op.get("single", True) and len(op["kw"]) == 1
+    return op
+
+
 def multi_sp_peer(snap):
     """names of the interfaces (not ServicePorts) of a snapshot that have more than one ServicePort peer over their links"""
     typ = {(n[0], n[1]): n[3] for n in snap["nodes"]}
@@ -57,6 +119,52 @@ def multi_sp_peer(snap):
 
 
 class SessionX(T.Session):
+    """.others: further topologies alive in the same process (pseudo-op `_backup`): copies of this one, node ids preserved"""
+
+    def backup(self, how):
+        """keep a copy of the topology as it is now: 'load' = serialize + load under a new graph id into a topology object of the
+        same class and backend, 'clone' = graph_model.clone_graph.  A model that cannot be serialized is not copied."""
+        import uuid
+        if not hasattr(self, "others"):
+            self.others = []
+        gid = str(T._real_uuid4())
+        try:
+            if how == "clone":
+                g = self.topo.graph_model.clone_graph(new_graph_id=gid)
+                self.others.append(("clone", g, None))
+            else:
+                b = T.new_topology(self.flavour + ("+d" if self.backend == "d" else ""))
+                empty = b.graph_model.graph_id
+                if self.flavour == "exp":
+                    b.load(graph_string=self.topo.serialize(), new_graph_id=gid)
+                else:
+                    # SubstrateTopology.load keeps the graph id of the text: re-label the copy through the importer
+                    g = b.graph_model.importer.import_graph_from_string(graph_string=self.topo.serialize(), graph_id=gid)
+                    b.graph_model = type(b.graph_model)(graph_id=g.graph_id, importer=g.importer, logger=g.log)
+                try:
+                    b.graph_model.importer.delete_graph(graph_id=empty)
+                except Exception:
+                    pass
+                self.others.append(("load", b.graph_model, b))
+            return True
+        except Exception:
+            return False
+
+    def other_snapshots(self):
+        out = []
+        for how, gm, _ in getattr(self, "others", []):
+            class _V:
+                graph_model = gm
+            out.append(T.snapshot(_V))
+        return out
+
+    def close(self):
+        for how, gm, _ in getattr(self, "others", []):
+            try:
+                gm.importer.delete_graph(graph_id=gm.graph_id)
+            except Exception:
+                pass
+        super().close()
 
     def apply(self, op):
         """as Session.apply; an op whose *arguments* cannot be built (a value spec the sliver classes refuse to construct, e.g. a
@@ -274,7 +382,7 @@ def gen_op_x(rng, sess, names, fault=0.0, ext=False, oracle_only=False, px=0.22)
     menu = ["add_switch_x", "add_facility_x"]
     elems = nodes + comps + svcs + ifaces + links
     if elems:
-        menu += ["update_labels", "update_capacities", "set_attr", "set_attr"]
+        menu += ["update_labels", "update_capacities", "set_attr", "set_attr", "set_props_loose"]
     if nodes and free:
         menu += ["node_add_service_ifs"]
     if connected and sps:
@@ -360,6 +468,15 @@ def gen_op_x(rng, sess, names, fault=0.0, ext=False, oracle_only=False, px=0.22)
             op["fault"] = "bad-field"
             op["fields"] = dict(rng.choice(UPD_BAD[which]))
         return op
+    if k == "set_props_loose":
+        # bulk setter mixing good properties with one the sliver does not type-check (non-string value), and - when a fault is
+        # injected - one the sliver rejects; every position
+        h = rng.choice(elems)
+        op = {"op": "set_props", "h": h.key, "kw": T.pick_kw(rng, h.kind, n=rng.choice([1, 2, 2])), "single": False}
+        if bad and rng.random() < 0.5:
+            op["kw"] = T.pick_kw(rng, h.kind, bad_at=rng.randrange(0, 3), n=2)
+            op["fault"] = "bad-prop"
+        return loosen(rng, sess, op, p=1.0)
     if k == "set_attr":
         h = rng.choice(elems)
         attr = rng.choice(SIMPLE_ATTRS[h.kind])
@@ -370,6 +487,9 @@ def gen_op_x(rng, sess, names, fault=0.0, ext=False, oracle_only=False, px=0.22)
             op["val"] = ATTR_BAD[attr]
         elif r < 0.3:
             op["val"] = ["none"]
+        elif r < 0.45 and attr in dict(loose_props(h.kind)):
+            op["val"] = rng.choice(dict(loose_props(h.kind))[attr])       # `element.details = 1234`: no type check anywhere above the graph
+            op["loose"] = attr
         return op
     if k == "set_attr_image":
         h = rng.choice(nodes)
